@@ -11,6 +11,10 @@ Trace events (one list per (program, simulation), merged by the parent), all dat
   ["fuq", day, schedule_method, kind, site, rate]       follow-up queue insertions
   ["flagupd", day, method, n_flags]
   ["done", method, site, year]                            planner completion counter increments
+  ["detect", day, site, eqg, comp, company, emission_id, repairable]
+                                                          update_detection_records issued by a sensor
+                                                          (not through a tagging call)
+Events keep the order in which the simulator produced them.
 """
 from __future__ import annotations
 
@@ -85,9 +89,45 @@ def install_wrappers():
             pass
         EVENTS.append(["tag", di(tagging_info.curr_date), str(self.get_id()), str(equipment_group), str(component),
                        tagging_info.company, tagging_info.report_delay, n_act])
-        return orig_tag(self, equipment_group, component, tagging_info)
+        CTXT["in_tag"] = True
+        try:
+            return orig_tag(self, equipment_group, component, tagging_info)
+        finally:
+            CTXT["in_tag"] = False
 
     Site.tag_emissions_at_component = tag
+
+    # --- detection records set by sensors (observation only: the registry is filled from values the
+    #     simulator computed itself, no extra call consumes random numbers) ------------------------
+    from virtual_world.emission_types.emission import Emission
+
+    WHERE = {}
+    orig_gde = Site.get_detectable_emissions
+
+    @functools.wraps(orig_gde)
+    def gde(self, method_name):
+        out = orig_gde(self, method_name)
+        try:
+            for eqg, comps in out.items():
+                for comp, ems in comps.items():
+                    for em in ems:
+                        WHERE[id(em)] = (str(self.get_id()), str(eqg), str(comp))
+        except Exception:
+            pass
+        return out
+
+    Site.get_detectable_emissions = gde
+    orig_udr = Emission.update_detection_records
+
+    @functools.wraps(orig_udr)
+    def udr(self, company, detect_date):
+        if not CTXT.get("in_tag"):
+            loc = WHERE.get(id(self), (None, None, None))
+            EVENTS.append(["detect", di(detect_date), loc[0], loc[1], loc[2], company, self._emissions_id,
+                           bool(self._repairable)])
+        return orig_udr(self, company, detect_date)
+
+    Emission.update_detection_records = udr
 
     # --- survey step -----------------------------------------------------------------------
     orig_survey = Method.survey_site
